@@ -953,14 +953,15 @@ def _c08_same_answer(case):
                 pre = prev_state(case, i)
                 ans = [f for sid, f in ln.frames if sid == w[1] and f.startswith("meta ") and " desc[" in f]
                 on_topic = pre is not None and _attached_to(case, pre, w[1], w[2])
+                spelled = (w[1], w[2], i in case.via_chn)       # (the answer names the topic as it was addressed: `grp…` or `chn…`)
                 if len(ans) == 1 and on_topic:
-                    prev = asked.get((w[1], w[2]))
+                    prev = asked.get(spelled)
                     if prev is not None and prev[1] != ans[0]:
                         out.append((i, f"C08 [same-answer] {w[1]} asked for the description of {w[2]} at line {prev[0]} and again now, nothing "
                                        f"but leaving, attaching, idling out and restarting in between: `{prev[1]}` then `{ans[0]}`"))
-                    asked[(w[1], w[2])] = (i, ans[0])
+                    asked[spelled] = (i, ans[0])
                 else:
-                    asked.pop((w[1], w[2]), None)
+                    asked.pop(spelled, None)
             continue
         if w[0] in ("unload", "restart"):
             continue
